@@ -8,7 +8,7 @@
                temporal_group.find_def_tags(include_groups=0), in order).
    Models only -- proofs live in Proofs/OnsetProofs.v. *)
 From Coq Require Import List NArith Arith Bool.
-From HV Require Import Base.Res Base.Str.
+From HV Require Import Base.Res Base.Str Gen.C10Fold.
 Import ListNotations.
 
 Inductive tkind : Set := Onset | Offset | Inset.
@@ -28,10 +28,17 @@ Record issue : Set := mkIssue {
   iname : str             (* def_tag.extension as written *)
 }.
 
-(* str.casefold() restricted to ASCII (the harness alphabet is ASCII). *)
-Definition fold_ch (c : N) : N :=
-  if ((65 <=? c) && (c <=? 90))%N then (c + 32)%N else c.
-Definition casefold (s : str) : str := map fold_ch s.
+(* str.casefold(): a per-character mapping (one code point may fold to several:
+   sharp s -> "ss", the fi ligature -> "fi").  ASCII letters are folded by rule;
+   the non-ASCII code points of the harness alphabet are folded by the table
+   Gen/C10Fold.v, regenerated from CPython's str.casefold on every run (every other
+   code point is left unchanged, which is right only for characters without case). *)
+Definition fold_ch (c : N) : list N :=
+  match find (fun p : N * list N => N.eqb (fst p) c) fold_table with
+  | Some p => snd p
+  | None => [if ((65 <=? c) && (c <=? 90))%N then (c + 32)%N else c]
+  end.
+Definition casefold (s : str) : str := flat_map fold_ch s.
 
 (* self._onsets: only the keys are ever consulted; kept in insertion order. *)
 Definition state := list str.
